@@ -77,8 +77,19 @@ class Filt:
         return self.sat(self.string, s)
 
 
-def gen_filter(r):
+def doc_names(nodes):
+    out = []
+    for nd in nodes:
+        if nd[0] == "e":
+            out.append(nd[1])
+            out += doc_names(nd[3])
+    return out
+
+
+def gen_filter(r, present=()):
     names = c04.ORD + c04.VOID + c04.PRES + list(c04.CONT)
+    if present and r.random() < 0.7:
+        names = list(present) + r.sample(names, 2)
     x = r.random()
 
     def name_crit():
@@ -86,7 +97,7 @@ def gen_filter(r):
         if y < 0.5:
             return ("str", r.choice(names))
         if y < 0.75:
-            return ("list", r.sample(names, r.randint(1, 4)))
+            return ("list", r.sample(names, min(len(names), r.randint(1, 4))))
         return ("re", re.compile(r.choice(["^[ab]$", "^p", "i", "^(div|span|pre)$", "r", "^t", "x"])))
 
     def attr_crit():
@@ -228,6 +239,47 @@ def merge_runs(runs):
     return runs
 
 
+def intended_events(nodes, counter, accepted, f):
+    """C03-protocol events of the document; every start tag carries its index in the PFX slot"""
+    evs = []
+    for nd in nodes:
+        if nd[0] == "t":
+            evs.append("d:" + (cps(nd[1]) or "-"))
+        elif nd[0] in ("c", "cd", "pi"):
+            cls = {"c": 1, "cd": 2, "pi": 3}[nd[0]]
+            evs += ["x:-", "d:" + (cps(nd[1]) or "-"), f"x:{cls}"]
+        else:
+            _, name, attrs, kids = nd
+            i = counter[0]
+            counter[0] += 1
+            if f.kind == "tag" and f.matches_tag(name, attrs):
+                accepted.append(f"e{i}")
+            evs.append(f"s:{name}:e{i}")
+            evs += intended_events(kids, counter, accepted, f)
+            evs.append(f"e:{name}:e{i}")
+    return evs
+
+
+def model_line(nodes, f):
+    accepted = []
+    evs = intended_events(nodes, [0], accepted, f)
+    tags = "tags=" + (".".join(accepted) if accepted else "-")
+    if f.kind == "string":
+        ok = []
+        for run in text_runs(nodes):
+            if run is None:
+                continue
+            s2 = collapse(run[1], [])
+            if f.matches_string(s2):
+                ok.append(cps(s2) or "e")
+        strs = "strs=" + (";".join(dict.fromkeys(ok)) if ok else "-")
+    else:
+        strs = "strs=-"
+    pre = "pre=" + ".".join(c04.PRES)
+    cont = "cont=" + ".".join(f"{k}:{v}" for k, v in c04.CONT.items())
+    return f"c16 fbuild {pre} {cont} {tags} {strs} {';'.join(evs) if evs else '-'}"
+
+
 def real_parse(text, strainer):
     from bs4 import BeautifulSoup
     with warnings.catch_warnings():
@@ -235,7 +287,7 @@ def real_parse(text, strainer):
         return BeautifulSoup(text, "html.parser", parse_only=strainer, multi_valued_attributes=None)
 
 
-def check_one(ctx, nodes, text, f, stream):
+def check_one(ctx, nodes, text, f, stream, lines=None, impls=None, mcases=None):
     try:
         soup = real_parse(text, f.strainer())
     except Exception as e:
@@ -243,6 +295,10 @@ def check_one(ctx, nodes, text, f, stream):
         return
     got = c04.shape(soup, with_pos=False)
     ctx.count("filter:" + f.kind)
+    if lines is not None:
+        lines.append(model_line(nodes, f))
+        impls.append(c03.shape(soup))
+        mcases.append({"text": text, "filter": describe(f)})
     if f.kind == "tag":
         want, lost = expected_tag_filter(f, nodes, [], True)
         nontrivial = want != "" and want != show_nodes(nodes, [])
@@ -280,12 +336,22 @@ def run(ctx: Ctx):
     for fpath in sorted(glob.glob(os.path.join(os.path.dirname(__file__), "..", "corpus", "C16", "*.json"))):
         c = json.load(open(fpath))
         check_one(ctx, [tuple_tree(n) for n in c["nodes"]], c["text"], from_description(c["filter"]), "corpus")
+    lines, impls, mcases = [], [], []
     for i in range(ctx.n(6000, 100000)):
         r = ctx.rng("doc", i)
         nodes = c04.gen_tree(r)
         text = well_formed_text(r, nodes)
-        f = gen_filter(r)
-        check_one(ctx, nodes, text, f, "generated")
+        f = gen_filter(r, doc_names(nodes))
+        check_one(ctx, nodes, text, f, "generated", lines, impls, mcases)
+    import re as _re
+    drv = Driver()
+    rep = drv.ask(lines)
+    for l, a, b, c in zip(lines, impls, rep, mcases):
+        b = _re.sub(r"\|e\d+>", "|->", b)
+        if a != b:
+            ctx.corr_disagreements += 1
+            ctx.violation("model (filtered fold of the intended events) and implementation disagree", case=c | {"line": l[:2000]},
+                          observed=a, model=b, stream="correspondence", no_failing_input=True)
 
 
 def tuple_tree(n):
